@@ -228,4 +228,128 @@ theorem extract_short (mask : MaskFn) (env : Env) (isServer : Bool) (guessed : B
            rw [e1, key_phase_eq]
            simp [ofPkt, Pkt.tokenLen, Pkt.packetLen])
 
+@[simp] theorem fOk_cast (n : Nat) : fOk (.S (n : Int)) = true := by simp [fOk]
+@[simp] theorem fNat_cast (n : Nat) : fNat (.S (n : Int)) = n := by simp [fNat]
+
+/-- the catch-all handler of `extract_quic_packet` at a point where nothing has been appended yet -/
+theorem try_opt {α β : Type} (o : Option α) (H : PyRt.Err → β) (K : α → β) :
+    tryE (ofOpt o) H K = match o with | none => H .index | some a => K a := by cases o <;> rfl
+
+theorem try_dict {β : Type} (d : Dict (List Nat) Bytes) (k : List Nat) (H : PyRt.Err → β) (K : Bytes → β) :
+    tryE (dictGetE d k) H K = match d k with | none => H .key | some v => K v := by
+  unfold dictGetE; cases d k <;> rfl
+
+theorem try_ofD {α β γ : Type} (x : Except DErr α) (f : α → β) (H : PyRt.Err → γ) (K : β → γ) :
+    tryE (ofD (Except.map f x)) H K = match x with | .error e => H (dErr e) | .ok v => K (f v) := by
+  cases x <;> rfl
+
+theorem try_tb1 {β : Type} (n : Nat) (H : PyRt.Err → β) (K : Bytes → β) :
+    tryE (toBytesE (n : Int) 1) H K = if n < 256 then K [UInt8.ofNat n] else H .overflow := by
+  have h1 : (1 : Int) = Int.ofNat 1 := rfl
+  by_cases h : n < 256
+  · have := toBytesE_nat n 1 (by simpa using h)
+    simp only [Int.ofNat_eq_natCast] at this
+    rw [h1]; simp only [Int.ofNat_eq_natCast]; rw [this]
+    have e : n % 256 = n := Nat.mod_eq_of_lt h
+    simp [h, Bytes.ofNatBE, e]
+  · have : toBytesE (n : Int) 1 = .error .overflow := by
+      unfold toBytesE
+      have hh : ((n : Int) < 0 ∨ (n : Int) ≥ 256 ^ (1 : Int).toNat) := by
+        right
+        show (n : Int) ≥ 256 ^ 1
+        omega
+      have h0 : ¬ ((1 : Int) < 0) := by omega
+      rw [if_neg h0, if_pos hh]
+    rw [this]; simp [h]
+
+@[simp] theorem fOk_4 : fOk (.S 4) = true := by decide
+@[simp] theorem fOk_1 : fOk (.S 1) = true := by decide
+@[simp] theorem fNat_4 : fNat (.S 4) = 4 := by decide
+@[simp] theorem fNat_1 : fNat (.S 1) = 1 := by decide
+theorem toNat_4 : Int.toNat 4 = 4 := rfl
+theorem toNat_1 : Int.toNat 1 = 1 := rfl
+
+/-- the simp set that turns the `struct.unpack_from` calls into length tests and slices -/
+macro "unpack_norm" : tactic =>
+  `(tactic| simp only [try_unpack, List.append_nil, List.cons_append, List.nil_append, List.all_cons, List.all_nil, fOk_B, fOk_nat,
+    fOk_4, fOk_1, fNat_4, fNat_1, toNat_4, toNat_1, Bool.and_self, Bool.and_true, Bool.true_and, List.map_cons, List.map_nil,
+    List.sum_cons, List.sum_nil, fNat_B, fNat_nat, cutFields, fldB, fldS, List.getD_cons_zero, List.getD_cons_succ,
+    List.take_succ_cons, List.take_zero, List.drop_succ_cons, List.drop_zero, List.headD_cons, ne_eq, not_false_eq_true,
+    fOk_cast, fNat_cast, try_opt, try_dict, try_ofD, try_tb1, decode_variable_length_int_eq_model, get_variable_length_int_length_eq_model,
+    List.length_cons, reduceCtorEq, decide_false, decide_true, if_true, Int.ofNat_eq_natCast, Int.toNat_natCast, List.getElem?_cons_succ,
+    List.getElem?_cons_zero])
+
+theorem decodeVarint_take1 (l : Bytes) (v : Nat) (h : decodeVarint (List.take 1 l) = some v) : v < 64 := by
+  cases l with
+  | nil => simp [decodeVarint] at h
+  | cons x t =>
+    simp only [List.take_succ_cons, List.take_zero, decodeVarint, List.length_nil] at h
+    split at h
+    · cases h
+    · simp only [List.take_nil, accBE, List.foldl_nil, Option.some.injEq] at h
+      subst h
+      have : x.toNat &&& 63 ≤ 63 := Nat.and_le_right
+      omega
+
+/-- slices of a datagram behind its six fixed header bytes -/
+theorem slice6 (x0 x1 x2 x3 x4 x5 : UInt8) (r : Bytes) (i j : Nat) :
+    Bytes.slice (x0 :: x1 :: x2 :: x3 :: x4 :: x5 :: r) (6 + i) (6 + j) = List.take (j - i) (List.drop i r) := by
+  have e : 6 + j - (6 + i) = j - i := by omega
+  simp only [Bytes.slice]
+  rw [e, Nat.add_comm 6 i]
+  simp only [List.drop_succ_cons]
+
+theorem seven (x : Nat) : 7 + x = 6 + (1 + x) := by omega
+
+/-- `l[x : x + n]` -/
+theorem slice_add (l : Bytes) (x n : Nat) : Bytes.slice l x (x + n) = List.take n (List.drop x l) := by
+  simp [Bytes.slice]
+
+theorem drop6 (x0 x1 x2 x3 x4 x5 : UInt8) (r : Bytes) (y : Nat) :
+    List.drop (6 + y) (x0 :: x1 :: x2 :: x3 :: x4 :: x5 :: r) = List.drop y r := by
+  rw [Nat.add_comm]; rfl
+
+theorem drop7 (x0 x1 x2 x3 x4 x5 : UInt8) (r : Bytes) (y : Nat) :
+    List.drop (7 + y) (x0 :: x1 :: x2 :: x3 :: x4 :: x5 :: r) = List.drop (1 + y) r := by
+  rw [seven, drop6]
+
+/-- resolve every `if` whose condition the hypotheses decide by linear arithmetic -/
+macro "ifs" : tactic => `(tactic| simp (disch := omega) only [if_pos, if_neg])
+
+/-- a long-header datagram whose version field is zero (Version Negotiation): the packet is appended, then the unbound
+    `total_packet_len` is caught and the rest of the datagram dropped -/
+theorem extract_long_vneg (mask : MaskFn) (env : Env) (isServer : Bool) (guessed : Bytes) (ts : Nat) (fb dl : UInt8) (r : Bytes)
+    (keys : Dict (List Nat) Bytes) (cs : Option Bytes)
+    (hz : Bytes.beNat (fb :: 0 :: 0 :: 0 :: 0 :: dl :: r) ≠ 0) (hs : isLong fb = true) :
+    Gen.Py.extract_quic_packet (maskE mask) isServer guessed keys cs (fb :: 0 :: 0 :: 0 :: 0 :: dl :: r) ts =
+      .ok ((extract mask env isServer guessed ts (fb :: 0 :: 0 :: 0 :: 0 :: dl :: r)).pkts.map ofPkt)
+        { tls_data := (extract mask env isServer guessed ts (fb :: 0 :: 0 :: 0 :: 0 :: dl :: r)).rest } := by
+  unfold Gen.Py.extract_quic_packet extract
+  simp only [get_header_type_eq_model, get_packet_type_eq_model, onFirst, hs, hz, tryE_ok, Bool.false_eq_true, if_false, decide_false,
+    reduceCtorEq, decide_true, if_true]
+  unpack_norm
+  simp only [extractLong, need, bind, Except.bind, Dissect.ofOpt, slice_add]
+  unpack_norm
+  have S0 : Bytes.slice (fb :: 0 :: 0 :: 0 :: 0 :: dl :: r) 1 5 = [0, 0, 0, 0] := by simp [Bytes.slice]
+  have S1 : Bytes.slice (fb :: 0 :: 0 :: 0 :: 0 :: dl :: r) (6 + dl.toNat) (7 + dl.toNat) = List.take 1 (List.drop dl.toNat r) := by
+    rw [seven, slice6]; congr 1; omega
+  simp only [S0, S1, Nat.add_assoc, Nat.reduceAdd, Nat.add_zero, drop6, drop7, List.drop_drop, List.drop_zero, if_true, decide_true]
+  have hdl : dl.toNat < 256 := by simpa using dl.toNat_lt
+  by_cases hA : List.length r < dl.toNat
+  · ifs; simp
+  by_cases hB : List.length r < dl.toNat + 1
+  · ifs; simp
+  ifs
+  cases hv : decodeVarint (List.take 1 (List.drop dl.toNat r)) with
+  | none => simp
+  | some v =>
+    have hv64 := decodeVarint_take1 _ _ hv
+    by_cases hC : List.length r < dl.toNat + 1 + v
+    · ifs; simp
+    simp (disch := omega) only [if_pos, if_neg, List.length_take, List.length_drop, Nat.min_eq_left]
+    by_cases hD : List.length r < dl.toNat + 1 + v + 4
+    · ifs; simp
+    ifs
+    simp [ofPkt, Pkt.tokenLen, Pkt.packetLen, Nat.add_comm]
+
 end TLX.Props.Translated
